@@ -7,3 +7,28 @@ package dns
 
 // VerifNormalizedString exposes normalizedString (sanitize.go).
 func VerifNormalizedString(r RR) string { return normalizedString(r) }
+
+// VerifServeDNS runs the server's per-message decision (serveDNS) synchronously on the octets m,
+// sending whatever the server writes to wr. The server must not be running; defaults are filled in
+// as Server.init does.
+func VerifServeDNS(srv *Server, m []byte, wr Writer) {
+	if srv.MsgAcceptFunc == nil {
+		srv.MsgAcceptFunc = DefaultMsgAcceptFunc
+	}
+	if srv.MsgInvalidFunc == nil {
+		srv.MsgInvalidFunc = DefaultMsgInvalidFunc
+	}
+	if srv.Handler == nil {
+		srv.Handler = DefaultServeMux
+	}
+	w := &response{writer: wr, tsigProvider: srv.tsigProvider()}
+	srv.serveDNS(m, w)
+}
+
+// VerifMuxMatch exposes (*ServeMux).match.
+func VerifMuxMatch(mux *ServeMux, q string, t uint16) Handler { return mux.match(q, t) }
+
+// VerifDefaultAccept exposes defaultMsgAcceptFunc on raw header fields.
+func VerifDefaultAccept(bits, qd, an, ns, ar uint16) MsgAcceptAction {
+	return defaultMsgAcceptFunc(Header{Bits: bits, Qdcount: qd, Ancount: an, Nscount: ns, Arcount: ar})
+}
